@@ -112,6 +112,17 @@ func (_this *Session) GetIteratorForType(t reflect.Type) IteratorFunction {
 		return storedIterator.(IteratorFunction)
 	}
 
+	defer func() {
+		if r := recover(); r != nil {
+			// No iterator can be made for this type. Don't leave the
+			// placeholder behind (it would wait forever), and let anyone
+			// already waiting on it fail the same way.
+			iterator = func(*Context, reflect.Value) { panic(r) }
+			_this.iteratorFuncs.Delete(t)
+			wg.Done()
+			panic(r)
+		}
+	}()
 	iterator = _this.getDefaultIteratorForType(t)
 	wg.Done()
 	_this.iteratorFuncs.Store(t, iterator)
